@@ -480,13 +480,19 @@ func ruleWatermarkWriters(c *Check, rule string) {
 	pos := c.P.Pos(sl.fn.Pos())
 	kinds := map[string]int{}
 	bad := 0
+	// the watermark: the loop variable handed to LoadOnce as lastTxnID
+	wm := callArgVar(sl.fn, calleeIs(fnLoadOnce), 5)
+	if wm == "" {
+		c.Undecided(rule, fnSyncLoop+"/watermark", "cannot identify the loop variable passed to LoadOnce as lastTxnID", pos)
+		return
+	}
 	check := func(p *Path, hdr *ssa.BasicBlock) {
-		v := backedgeVal(p, "lastSyncedTxnID")
+		v := backedgeVal(p, wm)
 		if v == "" {
 			return
 		}
 		switch {
-		case strings.HasPrefix(v, "loop:lastSyncedTxnID@"):
+		case strings.HasPrefix(v, "loop:"+wm+"@"):
 			kinds["unchanged"]++
 		case strings.HasPrefix(v, "syncer.(*Syncer).SendOnce@") && strings.HasSuffix(v, "#0"):
 			res := strings.TrimSuffix(v, "#0")
@@ -536,7 +542,7 @@ func ruleWatermarkWriters(c *Check, rule string) {
 	for i := range paths {
 		for _, e := range callsOf(&paths[i], "syncer.(*Syncer).LoadOnce") {
 			nLO++
-			if len(e.Args) != 6 || !strings.HasPrefix(e.Args[5], "loop:lastSyncedTxnID@") {
+			if len(e.Args) != 6 || !strings.HasPrefix(e.Args[5], "loop:"+wm+"@") {
 				bad++
 				c.Bad(rule, fnSyncLoop+"/LoadOnce-gets-watermark", "LoadOnce is not passed the loop's current watermark as lastTxnID: "+fmtList(e.Args), evPos(c, e), nil)
 			}
